@@ -87,7 +87,8 @@ func NewCache(s *server) elton.Handler {
 
 		key := getKey(c.Request)
 		httpCache := disp.GetHTTPCache(key)
-		cacheStatus, httpResp := httpCache.Get()
+		// age需要与缓存的查询在同一时刻计算（避免查询后时钟跳至下一秒导致age大于有效期）
+		cacheStatus, httpResp, age := httpCache.GetWithAge()
 
 		cacheable := false
 		// 对于fetching类的请求，如果最终是不可缓存的，则设置hit for pass
@@ -106,7 +107,7 @@ func NewCache(s *server) elton.Handler {
 			// 设置缓存数据
 			setHTTPResp(c, httpResp)
 			// 设置缓存数据的age
-			setHTTPRespAge(c, httpCache.Age())
+			setHTTPRespAge(c, age)
 			return nil
 		}
 
